@@ -10,7 +10,7 @@ from ..refterms import RefModel
 from .c04 import model
 
 PROP = "C06"
-FLOORS = {"C06.R1": 10, "C06.R2": 5, "C06.R3": 3, "C06.R4": 20}
+FLOORS = {"C06.R1": 10, "C06.R2": 5, "C06.R3": 3, "C06.R4": 20, "C06.R5": 10}
 META = {
     "explanation": "Equality of refs is by printed form, hashing by a structural tuple. Per class the fields hashed equal the fields "
                    "rendered (plus a type discriminator on both sides) and a hashed field reaches the text untransformed (no sorting, "
@@ -230,3 +230,9 @@ def check(col: Collector):
     _injective(col)
     _eq_hash_pairing(col)
     _hash_assigned(col)
+    # the path a reference denotes is the sequence of keys given at construction: every access step is recorded verbatim
+    from . import c01, c04
+    from .common import shared
+    shared(col, "C06.R5", [c04.navigation_rules, c01._entry_points],
+           why="two references denote the same path iff they were built from the same steps; a step rewritten at "
+               "construction makes different written paths equal or equal written paths different")
